@@ -460,7 +460,7 @@ def run_c13(ctx):
     states, trans = states + r.distinct, trans + r.generated
     if not quick:
         # three loop instances (Start/Stop/Start leaves two loops for one MAC, plus a third target), one class of received packet
-        r = model_check(ctx, fam, base, "full_byMac_loops3", True, all_invs, 2400, MaxLoops=3, RecvOps="{1}", RecvSI="{a1}", RecvTI="{routerip}")
+        r = model_check(ctx, fam, base, "full_byMac_loops3", True, all_invs, 2400, MaxLoops=3, RecvOps="{1}", RecvSI="{a1}", RecvTI="{routerip}", NarrowES="TRUE")
         if not r.ok:
             raise vlib.InfraError("ArpHuntMC (ByMac, 3 loops): model-level failure violated=%s error=%s\n%s" % (r.violated, r.error, r.out[-2500:]))
         states, trans = states + r.distinct, trans + r.generated
